@@ -60,6 +60,16 @@ def run(ctx):
     fe = list(C07.array_mix_programs(ctx.rng, True).values()) + list(frontend.test_snippets())
     if ctx.quick: fe = ctx.rng.sample(fe, min(len(fe), 450))
     for src in fe: items.append((dict(w=2, s=100), src))
+    # programs that add overloads to builtin names, next to programs that rely on the builtin being chosen by coercion, and the
+    # same source more than once: a table of builtins shared between compilations would carry one program's functions into the next
+    ov = ['empty write(const int[] arr) { for (int i = 0; i < arr.length; i += 1) { write(arr[i]); write(\' \'); } }\nempty @is_you() { write([72, 105, 10]); }',
+          'empty @is_you() { write([72, 105, 10]); writeln([1, 2]); }',
+          'empty writeln(const int[] arr) { write(arr.length); writeln(); }\nempty @is_you() { writeln([1, 2]); }',
+          'empty sleep(bool b) { write(b); }\nempty all_is_win(int x) { write(x); }\nempty @is_you() { sleep(true); all_is_win(3); sleep(5); }',
+          'empty @is_you() { sleep(1); debug(); progress(); all_is_win(); }',
+          'int !is_defeat(int k) { return k; }\nempty @is_you() { try { write(!is_defeat(2)); !is_defeat(); } undo { write(\'u\'); } }']
+    for src in ov + ov[:2]:
+        items.append((dict(w=2, s=100), src))
     seeds = ('0', '1', '2', '3', '12345', '987654321')
     # each process compiles the same items, in its own order (forwards, backwards, shuffled): state that leaks from one
     # compilation into the next (a cache, a counter, a label pool that is not reset) shows as a difference per item
